@@ -80,6 +80,35 @@ def lifecycle_case(draw, tier="quick"):
             "fates": [[], []] if clean else [draw(fate_list(max_segments=5)), draw(fate_list(max_segments=5))]}
 
 
+@st.composite
+def busy_close_case(draw, tier="quick"):
+    """close() while the channel is busy: more data was accepted by send() than the congestion window lets through (so
+    messages wait in every queue of the sender), then close() at once or shortly after; later the id is used again. No
+    network faults (a lost RE-CONFIG is the recorded finding and would hide everything else)."""
+    nchan = draw(st.integers(1, 3))
+    ops = []
+    for i in range(nchan):
+        op = {"op": "create", "side": draw(st.integers(0, 1)), "ordered": draw(st.booleans()), "mr": None, "mlt": None, "label": "", "protocol": "",
+              "dt": 0}
+        if draw(st.integers(0, 2)) == 0:
+            op["refill"] = draw(st.sampled_from([1500, 5000]))
+        ops.append(op)
+    ops.append({"op": "await_open", "max_ms": 30000})
+    victim = draw(st.integers(0, nchan - 1))
+    for i in range(draw(st.integers(1, 8))):
+        ops.append({"op": "send", "ch": victim if draw(st.integers(0, 3)) else draw(st.integers(0, nchan - 1)), "side": draw(st.integers(0, 1)),
+                    "kind": "bytes", "len": draw(st.sampled_from([1, 1200, 2400, 5000, 30000])), "fill": i, "dt": 0})
+    ops.append({"op": "close", "ch": victim, "side": draw(st.integers(0, 1)), "dt": draw(st.sampled_from([0, 0, 1, 11, 30]))})
+    ops.append({"op": "wait", "dt": draw(st.sampled_from([50, 500, 5000]))})
+    ops.append({"op": "create", "side": draw(st.integers(0, 1)), "ordered": draw(st.booleans()), "mr": None, "mlt": None, "label": "", "protocol": "", "dt": 0,
+                "reuse": victim})
+    ops.append({"op": "await_open", "max_ms": 30000})
+    for i in range(draw(st.integers(1, 3))):
+        ops.append({"op": "send", "ch": nchan, "side": draw(st.integers(0, 1)), "kind": "bytes", "len": draw(st.sampled_from([1, 100, 2400])), "fill": 100 + i,
+                    "dt": draw(st.sampled_from([0, 20]))})
+    return {"client": draw(st.integers(0, 1)), "start_at": 0, "ops": ops, "fates": [[], []]}
+
+
 def run_lifecycle(case: dict) -> Outcome:
     flags = {"reconfig_dropped": False, "reset_overtook_data": False}
     out = _run_lifecycle(case, flags)
@@ -183,6 +212,16 @@ def _run_lifecycle(case: dict, flags: dict) -> Outcome:
         from aiortc.utils import uint32_gt
 
         for t in s.sctp:
+            # ... a RE-CONFIG that reaches an endpoint whose side of the association is not established yet (its COOKIE-ACK
+            # was lost) is discarded there; for the sender that is a lost RE-CONFIG like any other
+            orig_chunk = t._receive_chunk
+
+            async def wrapped_chunk(chunk, t=t, orig_chunk=orig_chunk):
+                if isinstance(chunk, S.ReconfigChunk) and t._association_state != t.State.ESTABLISHED:
+                    flags["reconfig_dropped"] = True
+                await orig_chunk(chunk)
+
+            t._receive_chunk = wrapped_chunk  # type: ignore[method-assign]
             orig = t._receive_reconfig_param
 
             async def wrapped(param, t=t, orig=orig):
@@ -378,11 +417,15 @@ CHECK = Check(
     families=[Family("programs", run_lifecycle, lifecycle_case, quick=4000, thorough=120000, min_shard=20),
               # the same programs over a transport whose send suspends (TURN channel bind / refresh)
               Family("yielding-send", run_lifecycle, lambda tier: yielding(lifecycle_case(tier)), quick=1500, thorough=40000, min_shard=20),
+              Family("busy-close", run_lifecycle, busy_close_case, quick=1500, thorough=40000, min_shard=20),
               # ... and with a sender that bundles (DCEP OPEN + DATA, RE-CONFIG + SACK, ... in one packet)
               Family("bundling", run_lifecycle, lambda tier: bundling(lifecycle_case(tier)), quick=1500, thorough=40000, min_shard=20)],
     floor=300,
     recognisers={
-        "reconfig-not-retransmitted": lambda fam, case, out: out.kind == "close-incomplete" and bool(out.info.get("reconfig_dropped")),
+        # (the side whose own request was answered frees the id and may hand it to a new channel while the peer's direction of
+        # the old stream is still live: the old stream's late DATA / a channel nobody announced then show up on the new one)
+        "reconfig-not-retransmitted": lambda fam, case, out: out.kind in ("close-incomplete", "transcript-extra-message", "transcript-corrupted",
+                                                                         "datachannel-unmatched", "never-opened", "undelivered") and bool(out.info.get("reconfig_dropped")),
         # besides the half-closed channel, the old stream's late DATA can then surface on a channel that reuses the id
         "reset-overtakes-data": lambda fam, case, out: out.kind in ("close-incomplete", "transcript-extra-message", "transcript-corrupted",
                                                                    "datachannel-unmatched", "never-opened", "undelivered") and bool(out.info.get("reset_overtook_data")),
